@@ -7,7 +7,11 @@
 (*               [file, status, content, format, uri] + the URI form under *)
 (*               which the manifest list names the manifest                *)
 (*   snapshots   [ts, mlist (set of manifest indexes), uri (form of the    *)
-(*               manifest-list path in the metadata JSON)]                 *)
+(*               manifest-list path in the metadata JSON), counts (per     *)
+(*               manifest-list entry: how the OPTIONAL summary counts      *)
+(*               added/existing/deleted_files_count are written:           *)
+(*               0 = fields absent, 1 = present and truthful, 2 = present  *)
+(*               in the schema but null = unknown)]                        *)
 (*   metas       the *.metadata.json files in commit order                 *)
 (*               [ts = last-updated-ms, cur = current-snapshot (0 = none), *)
 (*                snaps = the snapshots this file lists]                   *)
@@ -83,11 +87,20 @@ Entry(f, st, c, fmt, u) == [file |-> f, status |-> st, content |-> c, format |->
 U(k) == ((style \div 10) + nuri + k) % 4
 Ties(isMetaOnly) == IF TieAll \/ isMetaOnly THEN {0, 1} ELSE {0}
 
+\* How the writer of manifest list s fills the optional summary counts of its entry for manifest m.  The
+\* counts are advisory (the Iceberg spec makes them optional; null = unknown): liveness is decided by the
+\* manifest ENTRIES alone, so the reader contract below never looks at them.  An Avro file has one schema, so
+\* "absent" holds for a whole list; otherwise truthful and null entries alternate, so mixed lists occur, and
+\* the rotation over ubase and s gives every snapshot of every history each of the three forms.
+CountForm(s, m) == LET lm == ((style \div 10) + s) % 3 IN
+                   IF lm = 0 THEN 0 ELSE IF (m + lm) % 2 = 0 THEN 1 ELSE 2
+
 \* one commit that adds a snapshot: new manifests `newms`, manifest list `ml` (form `lu`)
 CommitSnapshot(name, newms, ml, lu, t, tie) ==
   /\ nact < MaxActions
   /\ manifests' = manifests \o newms
-  /\ snapshots' = Append(snapshots, [ts |-> Base.ts + 1 - tie, mlist |-> ml, uri |-> lu])
+  /\ snapshots' = Append(snapshots, [ts |-> Base.ts + 1 - tie, mlist |-> ml, uri |-> lu,
+                                      counts |-> [m \in ml |-> CountForm(NewS, m)]])
   /\ metas' = Append(metas, [ts |-> Base.ts + 1 - tie, cur |-> NewS, snaps |-> Base.snaps \cup {NewS}])
   /\ truth' = Append(truth, t)
   /\ nuri' = nuri + 3
@@ -258,6 +271,11 @@ CurrentDefined == /\ Candidates # {} /\ Candidates \subseteq DOMAIN metas
 \* every target has at least one allowed outcome, exactly one when the metadata choice is pinned
 AcceptPinned == \A t \in Targets : Accept(t) # {} /\ (Cardinality(Candidates) = 1 => Cardinality(Accept(t)) = 1)
 UnknownRefused == \A o \in Accept(UnknownSnap) : o.refuse = 1 /\ o.why = 1
+\* summary counts: one form per entry of the list, "absent" only for a whole list (one Avro schema per file)
+CountsWellFormed == \A s \in AllSnaps : LET sn == snapshots[s] IN
+    /\ DOMAIN sn.counts = sn.mlist
+    /\ \A m \in sn.mlist : sn.counts[m] \in 0..2
+    /\ (\E m \in sn.mlist : sn.counts[m] = 0) => (\A m \in sn.mlist : sn.counts[m] = 0)
 Bounded == nact = Len(hist) /\ nact <= MaxActions /\ Len(truth) = Len(snapshots)
 
 \* time travel: nothing a later action does changes what an existing snapshot serves
@@ -267,7 +285,8 @@ TimeTravelStable == [][\A s \in AllSnaps : SnapOutcome(s)' = SnapOutcome(s)]_var
 CaseRec ==
   [ubase |-> (style \div 10), scheme |-> (style % 10), hint |-> hint, hist |-> hist,
    manifests |-> manifests,
-   snapshots |-> snapshots,
+   snapshots |-> [i \in DOMAIN snapshots |-> [ts |-> snapshots[i].ts, uri |-> snapshots[i].uri, mlist |-> snapshots[i].mlist,
+                                               counts |-> {[m |-> m, c |-> snapshots[i].counts[m]] : m \in snapshots[i].mlist}]],
    metas |-> metas,
    cands |-> Candidates,
    opens |-> {[target |-> t, accept |-> Accept(t)] : t \in Targets}]
